@@ -426,10 +426,24 @@ def emit_write_graph(repo, tier="quick"):
                     ea = edge_attr(tt)
                     if ea and ea[0] == mol and ea[2] == ("const", "order"):
                         s = show(ea[1])
-                        if "pop()" in s and "each(" not in s:
+                        key_ = ea[1]
+                        ring_site = (rl.lineno, rl.col_offset)
+                        from_ring_loop = any(isinstance(x, tuple) and x and x[0] == "iter" and x[1] == ring_site for x in walk_term(key_))
+                        tree_key = False
+                        if key_[0] == "tuple" and len(key_[1]) == 2 and cur_term in key_[1]:
+                            other = key_[1][0] if key_[1][1] == cur_term else key_[1][1]
+                            if other[0] == "sub" and other[2] == ("const", 0):
+                                other = other[1]
+                            # the predecessor table looked up at the node being written
+                            tree_key = other[0] == "sub" and other[2] == cur_term
+                        if tree_key and not from_ring_loop:
                             kinds.add("tree")      # (predecessors[current][0], current) with current = to_visit.pop()
-                        elif "each(" in s:
+                        elif from_ring_loop:
                             kinds.add("ring")      # ring_idx_to_bond[each(...)]
+                        elif "pop()" in s and "each(" not in s:
+                            kinds.add("tree")
+                        elif "each(" in s:
+                            kinds.add("ring")
                         else:
                             kinds.add("unknown")
                     else:
@@ -456,6 +470,17 @@ def emit_write_graph(repo, tier="quick"):
             return [("BAD", ast.unparse(e))] if strict else None
         if isinstance(e, ast.JoinedStr):
             if any(isinstance(v, ast.FormattedValue) for v in e.values):
+                # an f-string is the concatenation of its pieces when every piece can be classified (f'({edge_symbol}')
+                pieces = []
+                for v in e.values:
+                    part = classify(v.value, env, False) if isinstance(v, ast.FormattedValue) and v.conversion in (-1, 115) and v.format_spec is None else \
+                        (classify(v, env, False) if isinstance(v, ast.Constant) else None)
+                    if part is None or any(t[0] == "BAD" for t in part):
+                        pieces = None
+                        break
+                    pieces += part
+                if pieces is not None and not any(t[0] == "MARK" for t in pieces) and not any(isinstance(v, ast.Constant) and "%" in str(v.value) for v in e.values):
+                    return pieces
                 lit = "".join(v.value for v in e.values if isinstance(v, ast.Constant) and isinstance(v.value, str))
                 return [("MARK", "percent" if lit.startswith("%") else "digit")]
         if strict:
